@@ -656,6 +656,20 @@ func exemptLeaves(f *FuncInfo, e ast.Expr, depth int, out map[string]bool, seen 
 		case *ast.FuncLit:
 			out["?:function literal"] = true
 			return false
+		case *ast.CallExpr:
+			// len(info.F): only the presence of the field is consulted, not its content
+			if id, ok := ast.Unparen(x.Fun).(*ast.Ident); ok && id.Name == "len" && len(x.Args) == 1 {
+				if _, isB := info.Uses[id].(*types.Builtin); isB {
+					if sel, ok := ast.Unparen(x.Args[0]).(*ast.SelectorExpr); ok {
+						if v, ok := info.Uses[sel.Sel].(*types.Var); ok && v.IsField() {
+							if t := info.TypeOf(sel.X); t != nil && strings.HasSuffix(strings.TrimPrefix(t.String(), "*"), "transfer.FileResumeInfo") {
+								out["infolen:"+v.Name()] = true
+								return false
+							}
+						}
+					}
+				}
+			}
 		case *ast.SelectorExpr:
 			if v, ok := info.Uses[x.Sel].(*types.Var); ok && v.IsField() {
 				t := info.TypeOf(x.X)
@@ -801,7 +815,10 @@ func runVerifyExempt(c *Ctx) {
 						exemptLeaves(gd.g, a.E, 8, leaves, map[types.Object]bool{})
 						for l := range leaves {
 							switch {
-							case l == "total", strings.HasPrefix(l, "info:"):
+							case l == "total", l == "info:LastVerifiedChunk", l == "info:LastVerifiedHash", l == "info:TotalChunks", l == "infolen:Bitmap":
+							case strings.HasPrefix(l, "info:"):
+								// round 5: what else the receiver reports (its bitmap, its totals) says which chunks it claims to hold - exactly the claim the verification exists to test
+								bad = append(bad, fmt.Sprintf("%s (derives from the receiver's report field %s: the claim under test cannot exempt itself)", types.ExprString(a.E), strings.TrimPrefix(l, "info:")))
 							case strings.HasPrefix(l, "opt:"):
 								if !allowed[strings.TrimPrefix(l, "opt:")] {
 									bad = append(bad, fmt.Sprintf("%s (derives from Options.%s)", types.ExprString(a.E), strings.TrimPrefix(l, "opt:")))
@@ -1051,6 +1068,11 @@ func runBucket(c *Ctx) {
 		ref := NodeRef{b, len(b.Nodes) - 1}
 		c.Check(grant.Passed(f, ref, "has-token") && grant.Passed(f, ref, "paid"), fmt.Sprintf("bucket/grant#%d", k), ret.Pos(), "true is returned only past tokens >= 1 and tokens -= 1",
 			"tokenBucket.Allow grants a request on a path that did not test tokens >= 1 or did not pay the token: the configured rate is exceeded")
+		// round 5: a grant in front of the refill takes a stored token without stamping the clock: the time during which the bucket
+		// was full is credited again at the next refill, so burst tokens are followed at once by another burst
+		c.Check(cfg.Dominates(refill, ref), fmt.Sprintf("bucket/grant-after-refill#%d", k), ret.Pos(), "the grant follows the refill (and its time stamp)",
+			"tokenBucket.Allow grants a request on a path that does not pass the refill and its time stamp (a fast path while tokens are left): the idle time before the burst is still on the clock when the bucket runs empty, "+
+				"the next call is credited all of it and a second full burst is admitted at once - more than burst + rate * t")
 	}
 	if k == 0 {
 		c.Bad("bucket/grant", f.Pos(), "tokenBucket.Allow has no `return true`")
